@@ -2,7 +2,7 @@
   Model/C05.lean — pack / unpack / token strings.
 
   ALG layer (transcribed function by function):
-    * `expand_brackets`                    utils.py:214-241   → `expandBrackets` (scan for `(`, balance, `factor*(`)
+    * `expand_brackets`                    utils.py:215-242   → `expandBrackets` (scan for `(`, balance, `factor*(`)
     * `preprocess_tokens`                  utils.py:141-166   → `preprocess`     (whitespace, split on `,`, `n*tok`, struct groups)
     * `structparser` + REPLACEMENTS_*      utils.py:33-78     → `matchStruct`, `structTokens`
     * `parse_single_token`                 utils.py:119-138   → `parseSingle`   (NAME_INT_RE / NAME_KWARG_RE / bare → `bits`)
@@ -18,7 +18,7 @@
     * `pack`                               methods.py:48-95   → `packLoop`, `packAlg`
     * `Bits.unpack`/`_readlist`            bits.py:1150-1187  → `unpack`, `tokenToDtype`
     * `Bits._read_dtype_list`              bits.py:1189-1224  → `pass1` (bits_after_stretchy_token), `pass2`, `readDtypeList`
-    * `DtypeDefinition.read_fn` variants   dtypes.py:283-312  → `readDT`
+    * `DtypeDefinition.read_fn` variants   dtypes.py:283-315  → `readDT`
   SPEC layer: `packT` (concatenation of per-token encodings, values consumed left to right), `arity`,
   bracket trees `BItem` with `render` / `flattenSpec`, per-kind codecs (`hexOfBits`, `binOfBits`, …).
 
@@ -146,7 +146,7 @@ def hexOfBits (b : Bits) : Str := (chunks 4 b).map fun c => hexChar (bitsToNat c
 def binOfBits (b : Bits) : Str := b.map fun x => if x then '1' else '0'
 def octOfBits (b : Bits) : Str := (chunks 3 b).map fun c => Char.ofNat (48 + bitsToNat c)
 
-/-! ## `expand_brackets` (utils.py:214-241) -/
+/-! ## `expand_brackets` (utils.py:215-242) -/
 
 /-- the inner `while p < len(s)` loop: `count` hanging brackets, position `p`; `some p` = index of the closing bracket. -/
 def matchClose : Str → Nat → Nat → Option Nat
@@ -171,8 +171,11 @@ def bracketSearch : Str → Nat → Option (Nat × Nat)
     | some ds => some (i, parseNat ds)
     | none => bracketSearch rest (i + 1)
 
-/-- `n * x` for a Python string. -/
-def strRepeat (n : Nat) (x : Str) : Str := (List.replicate n x).flatten
+/-- `','.join([x] * n)` -/
+def joinRepeat : Nat → Str → Str
+  | 0, _ => []
+  | 1, x => x
+  | n + 2, x => x ++ [','] ++ joinRepeat (n + 1) x
 
 /-- one turn of the `while True` loop: `none` = no bracket left (break). -/
 def expandStep (s : Str) : Except Err (Option Str) :=
@@ -190,8 +193,7 @@ def expandStep (s : Str) : Except Err (Option Str) :=
         match bracketSearch s 0 with
         | none => .error .value                                    -- "Failed to parse"
         | some (ms, factor) =>
-          -- `(factor - 1) * (inner + ',')` — a negative count gives '' in Python, so factor 0 acts like 1
-          .ok (some (s.take ms ++ strRepeat (factor - 1) (inner ++ [',']) ++ inner ++ post))
+          .ok (some (s.take ms ++ joinRepeat factor inner ++ post))
 
 def expandFuel : Nat → Str → Except Err Str
   | 0, _ => .error (.internal "fuel")
@@ -243,11 +245,13 @@ mutual
 end
 
 mutual
-  /-- what the code does: a factor `0` in front of a bracket behaves like `1` (`(factor - 1) * …` is empty for both). -/
+  /-- the comma separated pieces of the text `expand_brackets` returns: a group with factor 0 leaves one empty
+      piece behind (`a,0*(b),c` ↦ `a,,c`), which `preprocess_tokens` then skips. -/
   def BItem.flattenCode : BItem → List Str
     | .atom s => [s]
     | .group none items => BItem.flattenCodeList items
-    | .group (some ds) items => (List.replicate (max (parseNat ds) 1) (BItem.flattenCodeList items)).flatten
+    | .group (some ds) items =>
+      if parseNat ds = 0 then [[]] else (List.replicate (parseNat ds) (BItem.flattenCodeList items)).flatten
   def BItem.flattenCodeList : List BItem → List Str
     | [] => []
     | x :: xs => x.flattenCode ++ BItem.flattenCodeList xs
@@ -263,17 +267,6 @@ mutual
   def BItem.wfList : List BItem → Bool
     | [] => true
     | x :: xs => x.wf && BItem.wfList xs
-end
-
-mutual
-  /-- region of the known finding `zero-bracket-factor`: no bracket group has factor 0. -/
-  def BItem.noZeroFactor : BItem → Bool
-    | .atom _ => true
-    | .group none items => BItem.noZeroFactorList items
-    | .group (some ds) items => parseNat ds ≠ 0 && BItem.noZeroFactorList items
-  def BItem.noZeroFactorList : List BItem → Bool
-    | [] => true
-    | x :: xs => x.noZeroFactor && BItem.noZeroFactorList xs
 end
 
 /-! ## struct-style tokens (utils.py:26-78) -/
@@ -474,13 +467,14 @@ def DT.bitlen (d : DT) : Option Int := d.len.map (· * d.kind.mult)
 /-- `dtype.bitlength is None and not dtype.variable_length` -/
 def DT.stretchy (d : DT) : Bool := d.len.isNone && !d.kind.variable
 
-/-- `DtypeDefinition.get_dtype(length)` (dtypes.py:330-350). -/
+/-- `DtypeDefinition.get_dtype(length)` (dtypes.py:333-355). -/
 def getDtypeK (k : Kind) (len : Option Int) : Except Err DT :=
   match len with
   | none => .ok ⟨k, if k = .bool then some 1 else none⟩
   | some l =>
     if !k.allows l then .error .value
     else if k.variable then .error .value
+    else if l < 0 then .error .value                                 -- "A negative length … was supplied"
     else .ok ⟨k, some l⟩
 
 /-- `Register.get_dtype(name, length)`. -/
@@ -839,10 +833,8 @@ def readDT (b : Bits) (d : DT) (pos : Nat) : Except Err (Option Val × Nat) :=
     | some l =>
       if l < 0 then .error (.internal "unmodelled-negative-length") else
       let n := l.toNat
-      if k = .bool then
-        -- `read_fn(bs, start) = get_fn(bs[start:start + 1])`, no ReadError check
-        (getVal k ((b.drop pos).take n)).map fun v => (v, pos + n)
-      else if b.length < pos + n then .error .read
+      -- both `read_fn` variants (single allowed length / explicit length) check the available bits first
+      if b.length < pos + n then .error .read
       else (getVal k ((b.drop pos).take n)).map fun v => (v, pos + n)
 
 /-- second pass (bits.py:1204-1224). -/
